@@ -261,7 +261,8 @@ def lex_variants(rng, y, m, d, h, mi, s, frac, zone):
 ZONES = ["", "Z", "z", "+00:00", "-00:00", "+0", "+01:00", "-01:30", "+5:3", "+05:30", "-23:59", "+23:59", "+23",
          "+24:00", "-24", "+99:00", "+12:60", "+1:5"]
 FRACS = ["", "0", "5", "000000", "000001", "999999", "9999994", "9999995", "9999999", "1234564999", "1234565000",
-         "499999", "4999995", "0000005", "0000004", "00000049999", "000000500000", "123", "999999999999"]
+         "499999", "4999995", "0000005", "0000004", "00000049999", "000000500000", "123", "999999999999",
+         "1234564" + "9" * 20, "9999994" + "9" * 30, "0000004" + "9" * 17, "0000005" + "0" * 40, "4" * 7 + "9" * 60]
 
 
 def gen_parse_cases(ctx):
@@ -578,6 +579,7 @@ def run(ctx):
     restricted_simple_types(ctx)
     attribute_values(ctx)
     attributes_by_context(ctx)
+    typed_by_xsi(ctx)
     ctx.sample({"parse": cases[5]})
     ctx.sample({"parse": cases[len(cases) // 2]})
     ctx.sample({"decimal": str(vals[0]) if vals else None})
@@ -679,6 +681,42 @@ def attributes_by_context(ctx):
             if not ok:
                 ctx.fail("attribute values are not decoded by the type declared for their own element", dict(meta, part=name),
                          repr(got), repr(want))
+
+
+def typed_by_xsi(ctx):
+    """A reply leaf whose built-in type comes from xsi:type (the element is declared xsd:anyType) is converted by that
+    type, like a leaf declared with it - and text that is no value of the type raises ValueError just the same."""
+    import datetime
+    import decimal
+    schema = ('<xsd:element name="f"><xsd:complexType><xsd:sequence/></xsd:complexType></xsd:element>'
+              '<xsd:element name="fResponse"><xsd:complexType><xsd:sequence><xsd:element name="any" type="xsd:anyType"/>'
+              '</xsd:sequence></xsd:complexType></xsd:element>')
+    c = wsdlkit.client(wsdlkit.wsdl_doc(schema, "f", "fResponse"))
+    cases = [("int", "42", 42), ("boolean", "true", True), ("boolean", "0", False), ("decimal", "1.50", decimal.Decimal("1.50")),
+             ("double", "2.5", 2.5), ("date", "2001-02-03", datetime.date(2001, 2, 3)), ("string", "7", "7"),
+             ("dateTime", "2001-02-03T04:05:06", datetime.datetime(2001, 2, 3, 4, 5, 6)), ("long", "-7", -7),
+             ("dateTime", "2001-02-30T04:05:06", ValueError), ("date", "20010203", ValueError)]
+    for t, lex, want in cases:
+        meta = {"stream": "typed-by-xsi", "type": t, "text": lex}
+        ctx.case(common.canon(meta), True)
+        doc = ('<e:Envelope xmlns:e="%s" xmlns:xsi="%s" xmlns:xs="%s"><e:Body><fResponse xmlns="%s"><any xsi:type="xs:%s">%s'
+               '</any></fResponse></e:Body></e:Envelope>' % (xmlread.ENV11, xmlread.XSI, xmlread.XSD, wsdlkit.TNS, t, lex)).encode()
+        try:
+            got = c.service.f(__inject={"reply": doc})
+            got = getattr(got, "any", got) if hasattr(got, "__keylist__") else got
+        except ValueError:
+            got = ValueError
+        except Exception as e:
+            got = repr(e)
+        if want is ValueError:
+            ok = got is ValueError
+        elif isinstance(want, str):
+            ok = isinstance(got, str) and str(got) == want
+        else:
+            ok = type(got) is type(want) and got == want
+        if not ok:
+            ctx.fail("a leaf typed by xsi:type is not converted by that type", meta, repr(got),
+                     "ValueError" if want is ValueError else repr(want))
 
 
 def restricted_untranslated():
